@@ -6,7 +6,7 @@ from comp import attfamily as F
 NAME = "atthandles"
 LEAN_MODULE = "BluetoeModel.AttHandles"
 DRIVER = "drv_atthandles"
-HARNESS_DESC = "harness/atthandles.cpp (real details::handle_index_mapping<> / attribute_at of 24 generated server types)"
+HARNESS_DESC = "harness/atthandles.cpp (real details::handle_index_mapping<> / attribute_at / server<>::l2cap_input of 24 generated server types)"
 FLAGS = ["-O0", "-fsanitize=address,undefined", "-fno-sanitize-recover=all", "-fno-omit-frame-pointer", "-w"]
 HARNESS = dict(src="harness/atthandles.cpp", flags=FLAGS)
 
@@ -109,6 +109,66 @@ def monitor(k, server, hbi, fibh, ibh, attr, lo):
     return fails
 
 
+def probe_handles(hbi):
+    """dense set for the access-by-handle probe: every table handle -2..+2 (= every hole boundary),
+    the middle of every hole, 0, 1, 2, behind the table, 0xFFFE, 0xFFFF"""
+    hs = {0, 1, 2, 0xfffe, 0xffff}
+    for h in hbi:
+        hs.update(range(h - 2, h + 3))
+    for a, b in zip(hbi, hbi[1:]):
+        if b - a > 4:
+            hs.add((a + b) // 2)
+    return sorted(h for h in hs if 0 <= h <= 0xffff)
+
+
+def parse_acc(line):
+    w = dict(x.split(":", 1) for x in line.split())
+    return w["r"], w["b"], w["w"], w["f"]
+
+
+def monitor_access(k, hbi, attr, h, line):
+    """access BY HANDLE through l2cap_input, judged against the real table only: a handle that no
+    attribute has is Invalid Handle (Read, Read Blob, Write) / Attribute Not Found (Find Information
+    h..h) and never another attribute; an existing handle reaches exactly the attribute that has it"""
+    try:
+        r, b, w, f = parse_acc(line)
+    except (ValueError, KeyError):
+        return [("C04:access-by-handle:unparsable", "S%d acc %d -> %s" % (k, h, line[:120]))]
+    hx = "%04x" % h
+    le = "%02x%02x" % (h & 0xff, h >> 8)
+    idx = [i for i, x in enumerate(hbi) if x == h]
+    if not idx or h == 0:
+        bad = [n for n, v in (("Read", r), ("Read Blob", b), ("Write", w)) if v != "inv"]
+        nf = "0104%s%s" % (le, "01" if h == 0 else "0a")
+        if bad:
+            nxt = next((x for x in hbi if x > h), None)
+            return [("C04:access-by-handle:no-such-handle-is-served", "S%d handle 0x%s has no attribute (next attribute handle %s) but %s answered %s instead of Invalid Handle"
+                     % (k, hx, "0x%04x" % nxt if nxt else "none", "/".join(bad), {"Read": r, "Read Blob": b, "Write": w}[bad[0]][:60]))]
+        if f != nf:
+            return [("C04:access-by-handle:find-information-no-such-handle", "S%d Find Information %s..%s -> %s, expected %s" % (k, hx, hx, f, nf))]
+        return []
+    i = idx[0]
+    a = attr[i]
+    fails = []
+    if "inv" in (r, b, w):
+        fails.append(("C04:access-by-handle:existing-handle-invalid", "S%d handle 0x%s is attribute %d but Read/Read Blob/Write -> %s %s %s" % (k, hx, i, r, b, w)))
+    for n, v in (("Read", r), ("Read Blob", b), ("Write", w)):
+        if "@" in v and v.split("@")[1] != hx:
+            fails.append(("C04:access-by-handle:error-names-other-handle", "S%d %s of handle 0x%s -> %s" % (k, n, hx, v)))
+    if a is not None:
+        handle, uuid, rc, val = a
+        if rc == 0 and r != "ok:" + (val[:22].hex() or "-"):
+            fails.append(("C04:access-by-handle:wrong-attribute", "S%d Read of handle 0x%s -> %s, attribute %d (which has that handle) reads %s" % (k, hx, r, i, val.hex())))
+        if rc == 0 and b != r:
+            fails.append(("C04:access-by-handle:wrong-attribute", "S%d Read Blob(0) of handle 0x%s -> %s, Read -> %s" % (k, hx, b, r)))
+        if rc != 0 and (r.startswith("ok") or b.startswith("ok")):
+            fails.append(("C04:access-by-handle:wrong-attribute", "S%d handle 0x%s is attribute %d which refuses reads, Read -> %s" % (k, hx, i, r)))
+        ok_f = f.startswith("0501" + le + "%02x%02x" % (uuid & 0xff, uuid >> 8)) and len(f) == 12 if uuid != 1 else (f.startswith("0502" + le) and len(f) == 40)
+        if not ok_f:
+            fails.append(("C04:access-by-handle:find-information-wrong-attribute", "S%d Find Information %s..%s -> %s, attribute %d has type %04x" % (k, hx, hx, f, i, uuid)))
+    return fails
+
+
 def run_c04(ctx, replay_path=None):
     F.check_header_current()
     res = Result()
@@ -117,8 +177,11 @@ def run_c04(ctx, replay_path=None):
                 "handle_by_index(i) for all i (and two indices behind the table), attribute_at(i) type + read value for all i, and "
                 "first_index_by_handle(h)/index_by_handle(h) for EVERY h in 0..0xFFFF (thorough; quick: 0..0x0140 and every handle "
                 "-2..+2 around each attribute, 0x7FF0..0x8010, 0xFEF0..0xFFFF) are computed by the real templates and by the Lean model "
-                "and compared; an independent Python monitor evaluates the property on the real outputs. distinct = attributes + "
-                "handles looked up" % len(fam))
+                "and compared; access BY HANDLE: for every handle -2..+2 around each real attribute handle, the middle of every hole, 0, 1, 2, "
+                "0xFFFE, 0xFFFF (thorough: + 0..0x140 + 300 random) a Read Request, Read Blob (offset 0), Write Request (writes back the value "
+                "read) and Find Information h..h go through the real l2cap_input (fresh connection, MTU 23) and are compared with the model "
+                "(accessIndex / findInfoIndex); an independent Python monitor evaluates the property on the real outputs. distinct = attributes + "
+                "handles looked up + handles accessed" % len(fam))
     corpus = ctx.corpus()
     sessions, meta = [], []
     for name, ops in corpus:
@@ -138,6 +201,19 @@ def run_c04(ctx, replay_path=None):
         for i in range(n):
             sessions.append([head, "attr %d" % i])
             meta.append(("attr", k, i))
+    # access-by-handle probe: the dense handle set is built from the REAL handles (one extra pass);
+    # include_service<> types are left out (their mapping is a known finding and reads assert)
+    hb_sessions = [(k, ["server %d %s" % (k, F.decl_tokens(server))] + ["hbi %d" % i for i in range(n_attrs(server))])
+                   for k, (name, server) in enumerate(fam) if not has_includes(server)]
+    for (k, ops), r in zip(hb_sessions, ctx.run_impl([o for _, o in hb_sessions])):
+        if r["crash"] or len(r["out"]) != len(ops) or not r["out"][0].startswith("ok"):
+            continue
+        real = [int(x) for x in r["out"][1:]]
+        hs = probe_handles([h for h in real if h])
+        if ctx.thorough:
+            hs = sorted(set(hs) | set(range(0, 0x0141)) | set(ctx.rng.randrange(0x10000) for _ in range(300)))
+        sessions.append([ops[0]] + ["acc %d" % h for h in hs])
+        meta.append(("acc", k, hs))
     impl = ctx.run_impl(sessions)
     model = ctx.run_model(sessions)
     per = {}
@@ -180,6 +256,8 @@ def run_c04(ctx, replay_path=None):
             for (lo, hi), line in zip(m[2], a["out"][1:]):
                 w = line.split()
                 st["sweeps"].append((lo, parse_rle(w[1]), parse_rle(w[3])))
+        elif m[0] == "acc":
+            st["acc"] = list(zip(m[2], a["out"][1:]))
         elif m[0] == "attr":
             w = a["out"][1].split()
             st["attr"][m[2]] = (int(w[0]), int(w[1], 16), int(w[2]), bytes.fromhex(w[3]) if w[3] != "-" else b"")
@@ -198,6 +276,11 @@ def run_c04(ctx, replay_path=None):
             fails += monitor(k, server, hbi, f, x, attr, lo) if lo == st["sweeps"][0][0] else \
                 [z for z in monitor(k, server, hbi, f, x, attr, lo) if "index-by-handle" in z[0]]
             res.distinct.update((k, "h", lo + j) for j in range(0, len(f), 1 if len(f) < 2000 else 97))
+        acc_fails = []
+        for h, line in st.get("acc", []):
+            res.count("acc_" + ("existing" if h in hbi else "no_attribute"))
+            res.distinct.add((k, "acc", h))
+            acc_fails += [(key, what, h) for key, what in monitor_access(k, hbi, attr, h, line)]
         res.distinct.update((k, "a", i) for i in range(n))
         res.count("servers_with_includes", has_includes(server))
         seen = set()
@@ -207,6 +290,13 @@ def run_c04(ctx, replay_path=None):
             seen.add(key)
             ops = ["server %d %s" % (k, F.decl_tokens(server))]
             res.failures.append({"key": key, "what": what, "ops": ops, "input": "server type S%d: %s" % (k, fam[k][0])})
+        seen = set()
+        for key, what, h in acc_fails:
+            if key in seen:
+                continue
+            seen.add(key)
+            res.failures.append({"key": key, "what": what, "ops": ["server %d %s" % (k, F.decl_tokens(server)), "acc %d" % h],
+                                 "input": "server type S%d (%s), handle 0x%04x: Read 0a, Read Blob 0c (offset 0), Write 12, Find Information 04 h..h, MTU 23" % (k, fam[k][0], h)})
     res.exhaustive = bool(ctx.thorough)
     res.samples = [" ; ".join(x[:90] for x in s[:4]) for s in sessions[:3]]
     res.extra["server_types"] = ["S%d %s" % (k, nm) for k, (nm, _) in enumerate(fam)]
@@ -214,7 +304,8 @@ def run_c04(ctx, replay_path=None):
 
 
 THEOREMS = ["handles_strict_mono", "handles_nonzero", "handles_length", "handles_getElem", "first_index_count", "first_index_spec",
-            "index_handle_inverse", "index_by_handle_sound", "fixed_honoured_service", "fixed_honoured_characteristic",
+            "index_handle_inverse", "index_by_handle_sound", "access_by_handle_exact", "access_by_handle_hole",
+            "find_info_single_exact", "fixed_honoured_service", "fixed_honoured_characteristic",
             "fixed_honoured_start", "fixed_honoured_triple", "char_decl_names_value_handle"]
 WITNESSES = ["handles_consistent_full_witness", "include_handle_is_invalid", "include_char_decl_names_handle_zero",
              "include_range_ignores_fixed_handles"]
@@ -226,7 +317,7 @@ PROPS = {
         run=run_c04,
         level="proof",
         technique="Lean 4 proof over every server declaration value (handle list refinement of the recursive mapping templates) + exhaustive-per-type differential correspondence with the real templates",
-        level_text="For every declaration that satisfies the templates' static_asserts, keeps its handles below 0xFFFF and does not use include_service<>: handles are unique, non-zero, strictly increasing in declaration order, fixed handles are honoured, first_index_by_handle/index_by_handle are exact inverses of handle_by_index, and every characteristic declaration names the handle under which its own value attribute is found. For include_service<> the property is false of the code (witness theorems + replay on the real templates, known findings).",
+        level_text="For every declaration that satisfies the templates' static_asserts, keeps its handles below 0xFFFF and does not use include_service<>: handles are unique, non-zero, strictly increasing in declaration order, fixed handles are honoured, first_index_by_handle/index_by_handle are exact inverses of handle_by_index, a request addressed to handle h (check_handle: Read, Read Blob, Write, Prepare Write; Find Information h..h) is served by attribute i iff i is an attribute whose handle is exactly h - a handle in a hole, 0 or behind the table is Invalid Handle / Attribute Not Found and never aliases another attribute (access_by_handle_exact, find_info_single_exact) -, and every characteristic declaration names the handle under which its own value attribute is found. For include_service<> the property is false of the code (witness theorems + replay on the real templates, known findings).",
         level_note="Trusted: Lean kernel + standard axioms; the model equals the templates as far as the differential check covers it (24 server types, all indices, all 65536 handles per type in the thorough tier); declaration value and C++ type are generated from one description. Not covered: declarations reaching handle 0xFFFF (uint16 end_handle wraps), auto-generated characteristic UUIDs, the GAP service added by default.",
         design_ref="§5 C04",
         assumptions=["declaration satisfies the static_asserts (it compiles) and its last handle is below 0xFFFF",
